@@ -313,6 +313,8 @@ def run(F, R, tier):
         pick = [n for n in adt_[0]["_nodes"] if n.get("k") == "MethodCall" and n["name"] in ("last", "first", "get", "iter", "nth") and peel_value(n["recv"]).get("lid") == adt_[0]["body"]["params"][0].get("lid")]
         R.ob("C13-b", "a v1 `@deno-types` pragma is read from the comment directly above the import", len(pick) == 1 and pick[0]["name"] == "last",
              "analyze_deno_types picks `%s` of the leading comments: only the last leading comment is adjacent to the import, so an unrelated earlier comment would supply (or hide) the types specifier and the upgraded module info differs from a fresh analysis" % (expr_text(pick[0])[:40] if pick else "?"), adt_[0]["file"])
+    reord = [n for n in up["_nodes"] if n.get("k") == "MethodCall" and n["name"] in ("rev", "reverse", "sort", "sort_by", "sort_by_key", "sort_unstable", "swap")]
+    R.ob("C13-b", "the upgrade reads v1 arrays in their recorded order", not reord, "module_graph_1_to_2 reorders what it reads (`%s`): `last leading comment` would no longer be the comment adjacent to the import" % (expr_text(reord[0])[:40] if reord else ""), where(reord[0]) if reord else "")
     if R.ob("C13-b", "v1 Comment helper found", len(cm) == 1, "shape changed", up["file"]):
         names = field_names(F, cm[0])
         R.ob("C13-b", "v1 leading comments are read as {text, range}", sorted(names) == ["range", "text"], "Comment keys are %s" % names, up["file"])
